@@ -9,6 +9,7 @@ import (
 	"go/token"
 	"path/filepath"
 	"sort"
+	"strings"
 
 	"github.com/dave/dst"
 	"github.com/dave/dst/decorator"
@@ -322,7 +323,46 @@ func c17Verdict(c *fw.Ctx, cid, what string, err error, gotResult bool, written 
 	c.Count("faults_injected", 1)
 }
 
+// c17Overrides derives FileRestorer.Alias overrides from the file's own imports (deterministic):
+// explicit removal of an alias (""), a new alias, or none.
+func c17Overrides(src []byte) map[string]string {
+	out := map[string]string{}
+	f, err := parser.ParseFile(token.NewFileSet(), "", src, parser.ImportsOnly)
+	if err != nil {
+		return out
+	}
+	for i, im := range f.Imports {
+		p := strings.Trim(im.Path.Value, "\"`")
+		if p == "C" {
+			continue
+		}
+		switch (len(p) + i) % 4 {
+		case 0:
+			out[p] = "" // remove an alias the source may have
+		case 1:
+			out[p] = fmt.Sprintf("ov%d", i)
+		}
+	}
+	return out
+}
+
+// c17Restorer builds a file restorer with the given resolver and overrides.
+func c17Restorer(res resolver.RestorerResolver, ov map[string]string) *decorator.FileRestorer {
+	fr := decorator.NewRestorerWithImports("example.com/self", res).FileRestorer()
+	for k, v := range ov {
+		fr.Alias[k] = v
+	}
+	return fr
+}
+
 func c17Restore(c *fw.Ctx, id string, src []byte) {
+	c17RestoreWith(c, id, src, nil)
+	if ov := c17Overrides(src); len(ov) > 0 {
+		c17RestoreWith(c, id+"/alias-overrides", src, ov)
+	}
+}
+
+func c17RestoreWith(c *fw.Ctx, id string, src []byte, ov map[string]string) {
 	mk := func() (out *dst.File) {
 		// a panic here (malformed import declarations) is C15's business, not this check's
 		fw.Try(func() {
@@ -342,7 +382,7 @@ func c17Restore(c *fw.Ctx, id string, src []byte) {
 	}
 	clean := &failingPkgResolver{inner: guess.New()}
 	var refBuf bytes.Buffer
-	r := decorator.NewRestorerWithImports("example.com/self", clean)
+	r := c17Restorer(clean, ov)
 	var err error
 	if sig, _ := fw.Try(func() { err = r.Fprint(&refBuf, df) }); sig != "" || err != nil {
 		c.Count("inconclusive_clean_restore_fails", 1)
@@ -362,7 +402,7 @@ func c17Restore(c *fw.Ctx, id string, src []byte) {
 			df := mk()
 			snap := refl.DeepCopy(df)
 			fr := &failingPkgResolver{inner: guess.New(), failAt: k}
-			r := decorator.NewRestorerWithImports("example.com/self", fr)
+			r := c17Restorer(fr, ov)
 			var buf bytes.Buffer
 			var err error
 			if sig, detail := fw.Try(func() { err = r.Fprint(&buf, df) }); sig != "" {
@@ -377,13 +417,13 @@ func c17Restore(c *fw.Ctx, id string, src []byte) {
 			k2 := (k % K) + 1
 			fr2 := &failingPkgResolver{inner: guess.New(), failAt: k2}
 			var buf2 bytes.Buffer
-			err2 := decorator.NewRestorerWithImports("example.com/self", fr2).Fprint(&buf2, df)
+			err2 := c17Restorer(fr2, ov).Fprint(&buf2, df)
 			c17Verdict(c, cid+"/then@"+fmt.Sprint(k2), "restore", err2, false, buf2.Len(), string(src))
 			if dd := refl.DeepEqualDst(df, snap); dd != "" {
 				c.Violate("input-modified", "input-modified:restore-2", cid+": the dst tree changed after the second failure: "+dd, string(src))
 			}
 			var buf3 bytes.Buffer
-			if err := decorator.NewRestorerWithImports("example.com/self", guess.New()).Fprint(&buf3, df); err != nil {
+			if err := c17Restorer(guess.New(), ov).Fprint(&buf3, df); err != nil {
 				c.Violate("retry-fails", "retry-fails:restore", cid+": "+err.Error(), string(src))
 				return
 			}
